@@ -1331,6 +1331,10 @@ class FlowIR(object):
 
     SpecialFolders = ['input', 'data', 'bin', 'conf']
 
+    # VV: A reference to a component cannot begin right after one of these characters (they belong to a stage prefix,
+    # a longer component name or a path)
+    ReferenceLeftBoundary = r"(?<![\w.#/-])"
+
     DocumentTypes = [LabelDoWhile, LabelWorkflow]
 
     ExtractionMethodsInput = ["hookGetInputIds", "csvColumn"]
@@ -1464,53 +1468,48 @@ class FlowIR(object):
                 original_long = FlowIR.compile_reference(producer, filename, method, stage_index)
                 original_short = FlowIR.compile_reference(producer, filename, method)
 
-                for ref_str in [original_long, original_short]:
+                # VV: The RELATIVE spelling identifies the same producer only when the producer lives in the stage
+                # of this component (in any other stage it names a different component)
+                spellings = [original_long]
+                if stage_index == (comp_stage or 0):
+                    spellings.append(original_short)
+
+                for ref_str in spellings:
                     if ref_str not in translation_map:
                         translation_map[ref_str] = []
 
-                    translation_map[ref_str].append(rewritten)
+                    # VV: the same reference may be listed more than once (e.g. in both its spellings)
+                    if rewritten not in translation_map[ref_str]:
+                        translation_map[ref_str].append(rewritten)
+
+        # This re will find references followed by paths
+        # If ref is followed by a path then we have to replicate the path everywhere
+        # e.g. Component:ref/file.txt -> Component1:ref/file.txt Component2:ref/file.txt etc
+        # VV: All references are rewritten in a single pass (longest spelling first) and only where the text is a
+        # whole reference: text that is the tail of a longer producer name, stage prefix or path (e.g. `A:ref`
+        # inside `BA:ref`, `stage0.A:ref`, `data/A:ref`) is something else
+        ordered = sorted(translation_map, key=lambda name: len(name), reverse=True)
+        expression = re.compile(r"%s(%s)(?!\w)((?:/[\w.*]+)+,*)?" % (
+            cls.ReferenceLeftBoundary, '|'.join([re.escape(ref) for ref in ordered])))
+
+        def expand(m):
+            replicas = translation_map[m.group(1)]
+            path = m.group(2)
+            if path is None:
+                return " ".join(replicas)
+            # Check if there is a comma at end of path - if there is join using a comma
+            # VV: FIXME What if someone uses this hack in the `references` field ?
+            separator = " "
+            if path[-1] == ",":
+                separator = ","
+                path = path[:-1]
+            return separator.join(["%s%s" % (el, path) for el in replicas])
 
         def aggregate(string):
             # type: (str) -> str
-            for ref in refs_to_replicate:
-                # This re will find references followed by paths
-                # If ref is followed by a path then we have to replicate the path everywhere
-                # e.g. Component:ref/file.txt -> Component1:ref/file.txt Component2:ref/file.txt etc
-                update_refs = [ref]
-                stage_index, producer, filename, method = cls.ParseDataReferenceFull(ref, None)
-                if stage_index is not None:
-                    # VV: We want to add the ABSOLUTE reference second so that we do not end up with:
-                    # stage<idx>.stage<idx>.<component name>
-                    extra_ref = cls.compile_reference(
-                        producer=producer, filename=filename, method=method)
-                    update_refs.append(extra_ref)
-                for ref in update_refs:
-                    expression = re.compile(r"%s((?:/[\w.*]+)+,*)?" % ref)
-                    orig_string = string
-                    m = expression.search(string)
-                    if m is not None:
-                        # Check if we have a path after the reference
-                        if m.group(1) is not None:
-                            path = m.group(1)
-                            # Now check if there is a comma at end of path - if there is join using a comma
-                            separator = " "
-    
-                            # VV: FIXME What if someone uses this hack in the `references` field ?
-                            if path[-1] == ",":
-                                separator = ","
-                                path = path[:-1]
-    
-                            replacement = ["%s%s" % (el, path) for el in translation_map[ref]]
-                            replacement = separator.join(replacement)
-                            string = expression.sub(replacement, string)
-                        else:
-                            string = string.replace(ref, " ".join(translation_map[ref]))
-                        if string != orig_string:
-                            # VV: if we replaced the Absolute ref we must skip replacing the relative ref becuase
-                            # we'll end up with stage<idx>.stage<idx>.<component name>
-                            break
-
-            return string
+            if not ordered:
+                return string
+            return expression.sub(expand, string)
 
         component = FlowIR.replace_strings(component, aggregate, in_place=True)
 
@@ -1559,19 +1558,23 @@ class FlowIR(object):
             original_short = FlowIR.compile_reference(producer, filename, method)
 
             translation[original_long] = rewritten
-            translation[original_short] = rewritten
+            if stage_index == owner_stage:
+                # VV: The RELATIVE spelling identifies the same producer only when the producer lives in the
+                # stage of this component (in any other stage it names a different component)
+                translation[original_short] = rewritten
 
-        # VV: Ensure that references are replaced from the longest one to the shortest one so that
-        #     there is no way that a partial reference is replaced. This is probably overkill;
-        #     references end with the `method` postfix (e.g. ':ref').
+        # VV: Replace all references in a single pass (longest spelling first) and only where the text is a whole
+        # reference: text that is the tail of a longer producer name, stage prefix or path (e.g. `A:ref` inside
+        # `BA:ref`, `stage0.A:ref`, `data/A:ref`) or the head of a longer method (`:copy` in `:copyout`) is not.
         sorted_translation = sorted(translation, key=lambda name: len(name), reverse=True)
+        expression = re.compile(r"%s(?:%s)(?!\w)" % (
+            cls.ReferenceLeftBoundary, '|'.join([re.escape(original) for original in sorted_translation])))
 
         def translation_func(string):
             # type: (str) -> str
-            for original in sorted_translation:
-                string = string.replace(original, translation[original])
-
-            return string
+            if not sorted_translation:
+                return string
+            return expression.sub(lambda m: translation[m.group(0)], string)
 
         component = cls.replace_strings(component, translation_func, in_place=True)
 
